@@ -172,7 +172,8 @@ for k, v in ROUND4.items():
 
 # round-5 additions
 ROUND5 = {
-    "C18": " put-fails-always variant after-removal: a first snapshot succeeds, a key is removed, then every PUT fails (reported), the store recovers, the next snapshot completes, restart: the key must stay removed.",
+    "C13": " A registering arbiter must not be sent records of conflicts that are answered already (`resolved ...`), during the run and at its end.",
+    "C18": " put-fails-always variant after-removal: a first snapshot succeeds, a key is removed, then every PUT of the partition objects (s3_patition) / of the database's objects (s3) fails (the failure must be reported), the store recovers; when memory shows a completed state (no tombstone, everything clean) a restart must not bring the key back.",
     "C04": " Every node is compared with the primary (not only the first that differs); a node on which no client touched the key must equal the primary when every operation was followed by quiescence.",
     "C05": " A quarter of the workers each run with NUN_MAX_OP_LOG_SIZE 2500 / 10000: the primary's log rotates while a node is away.",
     "C08": " A user exists in one world only; the low session tries to log in as either with a wrong token (a failed login must not tell which exists).",
